@@ -308,4 +308,57 @@ func init() {
 		}
 		return "ok " + showList(items)
 	}
+	// hpartial algs k stream: the target accepts at most k bytes per Write and reports the rest with an error (a full disk,
+	// an expired deadline); the caller carries on with p[n:] until the stream is through.  The target then holds the stream,
+	// and every hasher of NewHasherWriter / NewHasherWriters reports its length and digest: "size:digest ..." per constructor
+	ops["hpartial"] = func(a []string) string {
+		algs := strings.Fields(arg(a, 0))
+		k, _ := strconv.Atoi(arg(a, 1))
+		stream := []byte(arg(a, 2))
+		run := func(w io.Writer, sink *shortSink) bool {
+			p := stream
+			for len(p) > 0 {
+				n, _ := w.Write(p)
+				if n <= 0 || n > len(p) {
+					return false
+				}
+				p = p[n:]
+			}
+			return string(sink.got) == string(stream)
+		}
+		out := []string{}
+		s1 := &shortSink{k: k}
+		w1, h1, err := hashio.NewHasherWriter(algs[0], s1)
+		if err != nil {
+			return "err"
+		}
+		ok1 := run(w1, s1)
+		out = append(out, fmt.Sprintf("%v %d:%x", ok1, h1.Size(), h1.Sum(nil)))
+		s2 := &shortSink{k: k}
+		w2, hs, err := hashio.NewHasherWriters(algs, s2)
+		if err != nil {
+			return "err"
+		}
+		ok2 := run(w2, s2)
+		for _, h := range hs {
+			out = append(out, fmt.Sprintf("%v %d:%x", ok2, h.Size(), h.Sum(nil)))
+		}
+		return strings.Join(out, " | ")
+	}
+
+}
+
+// shortSink accepts at most k bytes per Write; a Write that asked for more reports the rest with an error
+type shortSink struct {
+	k   int
+	got []byte
+}
+
+func (s *shortSink) Write(p []byte) (int, error) {
+	if len(p) <= s.k {
+		s.got = append(s.got, p...)
+		return len(p), nil
+	}
+	s.got = append(s.got, p[:s.k]...)
+	return s.k, fmt.Errorf("short write: %d of %d bytes", s.k, len(p))
 }
